@@ -219,6 +219,25 @@ def grammar_case(fggs, rng, tier, seed, index, viols, obs):
                         V('roundtrip:sum-product', f'{a["value"].tolist()} vs {b["value"].tolist()}')
                 elif a['ok'] != b['ok']:
                     V('roundtrip:sum-product-one-side-fails', f'{a["exc"]} vs {b["exc"]}')
+        # serialise, re-assign a factor's weights through the setter, serialise again: the second JSON carries the new weights
+        fin = [k for k, f in g.factors.items() if hasattr(f, 'weights') and f is not const]
+        if fin and index % 4 == 2:
+            k0 = sorted(fin)[index % len(fin)]
+            f0 = g.factors[k0]
+            dense0 = A.densify_pt(f0.weights).clone()
+            neww = torch.where(torch.isfinite(dense0), dense0 + 1.0, dense0)
+            oset = C.call(lambda: setattr(f0, 'weights', neww.clone()))
+            if oset['ok']:
+                oj = C.call(F.fgg_to_json, g)
+                obs['reserialised_after_weight_change'] = obs.get('reserialised_after_weight_change', 0) + 1
+                if oj['ok']:
+                    try:
+                        back = A.densify_pt(F.json_to_weights(json.loads(json.dumps(oj['value']['interpretation']['factors'][k0]['weights']))))
+                        exp_ = neww.to(torch.get_default_dtype())
+                        if tuple(back.shape) != tuple(exp_.shape) or not bool(((back == exp_) | (torch.isnan(back) & torch.isnan(exp_))).all()):
+                            V('stale-weights-in-second-json', f'factor {k0}: weights were re-assigned after the first fgg_to_json; the second JSON still describes {C.short(back.tolist())}, not {C.short(exp_.tolist())}')
+                    except Exception as e:
+                        V(f'exception:reserialise:{type(e).__name__}', str(e)[:200])
         # second round trip
         out = C.call(F.fgg_to_json, g2)
         if out['ok']:
